@@ -199,10 +199,18 @@ func (t *memTransport) matchRule(ev M) M {
 	for _, ru := range t.rules {
 		r := m(ru)
 		ok := true
-		if g, has := r["ifstate"]; has { // {"name":..., "eq": n}
-			gm := m(g)
-			if t.state[gm["name"].(string)] != num(gm["eq"]) {
-				ok = false
+		if g, has := r["ifstate"]; has { // {"name":..., "eq": n} or a list of them (conjunction)
+			var conds []any
+			if l, isl := g.([]any); isl {
+				conds = l
+			} else {
+				conds = []any{g}
+			}
+			for _, c := range conds {
+				gm := m(c)
+				if t.state[gm["name"].(string)] != num(gm["eq"]) {
+					ok = false
+				}
 			}
 		}
 		if ok {
@@ -526,6 +534,7 @@ func (r *runner) run() {
 	r.readers = map[string]bmc.SensorReader{}
 	opts, _ := sc["opts"].(map[string]any)
 	r.mt = &memTransport{e: r.e, trace: &r.trace, poison: -1, state: map[string]int{}}
+	r.e.state = r.mt.state
 	if opts != nil {
 		if opts["exact"] == true {
 			r.mt.exact = true
